@@ -290,15 +290,21 @@ def r19_1(ctx):
             inner = cu.strip_casts(f, f.kid(e, 0))
             if inner is not None and inner['k'] == 'sub':
                 return source_buffer(f, f.kid(inner, 0), at)
+        if e['k'] == 'ref' and e.get('dk') in ('local', 'param') and '*' in (e.get('t') or ''):
+            # a copy of another local that holds an arena pointer (prev = cur)
+            bs = local_bufs.get((f.tu.name, f.name), {}).get(e['name'])
+            if bs:
+                return list(bs)[0] if len(bs) == 1 else ANY
         return None
 
     # arena pointers handed down as arguments (`&current_rule->num_atoms`):
     # the callee's parameter is tracked from its entry
     param_buf = {}
     local_bufs = {}
-    for tu in tus:
+    for _pass in (1, 2):
+      for tu in tus:
         for f in tu.fn_list:
-            m = {}
+            m = local_bufs.setdefault((f.tu.name, f.name), {})
             for n in f.all_nodes():
                 var = src = None
                 if n['k'] == 'decl' and n.get('c'):
@@ -312,7 +318,6 @@ def r19_1(ctx):
                 b = source_buffer(f, src, n)
                 if b is not None:
                     m.setdefault(var, set()).add(b)
-            local_bufs[(f.tu.name, f.name)] = m
     for tu in tus:
         for f in tu.fn_list:
             m = local_bufs[(f.tu.name, f.name)]
